@@ -125,7 +125,7 @@ def _vacuity(pid, thorough, lines):
         fams[ln["f"]] = fams.get(ln["f"], 0) + 1
         if "m" in ln:
             muts += 1
-    need = set(range(1, 14)) - (set() if thorough else {11, 12})
+    need = set(range(1, 19)) - (set() if thorough else {11, 12, 14, 15, 16, 17, 18})
     if pid in ("C04", "C03"):
         need -= {1, 2, 3, 4}
     missing = sorted(need - set(fams))
@@ -252,7 +252,7 @@ def _trace_class(dom, e):
     parts = ["txfmt", "trace", str(e.get("ev"))]
     if e.get("ev") == "Decoded":
         parts += [str(e.get("type")), str(e.get("out")), str(e.get("tag", "")).split("/")[0]]
-    elif e.get("ev") == "HostPanic":
+    elif e.get("ev") in ("HostPanic", "HostAbort"):
         parts += [str(e.get("where")), str(e.get("type"))]
     else:
         parts += [str(e.get("type", "Transaction"))]
@@ -340,7 +340,7 @@ def run(pid, tier):
                 else:
                     keys.add(("dec", e["type"], re.sub(r"[0-9]+", "N", e.get("tag", "")), e["out"], e.get("err")))
             elif ev == "Stats":
-                chk.set("decode_outcomes", {k: e[k] for k in ("ok", "err", "panic")})
+                chk.set("decode_outcomes", {k: e.get(k, 0) for k in ("ok", "err", "panic", "abort")})
         shown = 0
         for e in events:
             if e.get("ev") not in ("Seg", "Stats") and shown < 3:
@@ -349,7 +349,12 @@ def run(pid, tier):
         # ---- binding self-test ----
         mut = {"C01": tc.corrupt_hex_field(["bytes"]), "C04": _corrupt_offset, "C03": tc.corrupt_hex_field(["id"]),
                "C02": _corrupt_decoded}[pid]
-        tc.selftest_corrupt(chk, "txfmt", SPEC_TR, tr, mut, max_events=450)
+        if chk.violations:
+            # a trace with rejected segments cannot host the self-test (the corrupted segment may already be a rejected one);
+            # the run fails with the violations found, which is itself the evidence that the legs bind
+            chk.set("binding_selftest", dict(skipped="violations found in this run", passed=None))
+        else:
+            tc.selftest_corrupt(chk, "txfmt", SPEC_TR, tr, mut, max_events=450)
         chk.set("evaluations", nev + chk.cov.get("replay_comparisons", 0))
         chk.set("distinct_nontrivial", len(keys))
         chk.set("rule", RULES[pid])
